@@ -145,9 +145,14 @@ type world struct {
 }
 
 func newWorld(port int, k uint, timeout time.Duration) (*world, error) {
-	w := &world{addr: fmt.Sprintf("127.0.0.1:%d", port), up: &fakeUp{script: map[string]*behaviour{}}}
+	return newWorldAddrs([]string{fmt.Sprintf("127.0.0.1:%d", port)}, k, timeout)
+}
+
+// newWorldAddrs: one proxy listening on several addresses (they share MaxInflightRequests)
+func newWorldAddrs(addrs []string, k uint, timeout time.Duration) (*world, error) {
+	w := &world{addr: addrs[0], up: &fakeUp{script: map[string]*behaviour{}}}
 	p := proxy.Proxy{
-		Addrs:               []string{w.addr},
+		Addrs:               addrs,
 		Upstream:            w.up,
 		Timeout:             timeout,
 		MaxInflightRequests: k,
@@ -854,7 +859,12 @@ func replyStorm(r *rng, n int, base int) error {
 	for sidx := 0; sidx < n; sidx++ {
 		k := []int{2, 3, 5}[r.intn(3)]
 		timeout := 150 * time.Millisecond
-		w, err := newWorld(base+sidx%50, uint(k), timeout)
+		// every third storm: the proxy listens on two addresses, which share the capacity
+		addrs := []string{fmt.Sprintf("127.0.0.1:%d", base+sidx%50)}
+		if sidx%3 == 1 {
+			addrs = append(addrs, fmt.Sprintf("127.0.0.2:%d", base+sidx%50))
+		}
+		w, err := newWorldAddrs(addrs, uint(k), timeout)
 		if err != nil {
 			return err
 		}
@@ -940,9 +950,10 @@ func replyStorm(r *rng, n int, base int) error {
 			w.up.script[name] = &behaviour{kind: "up", msg: resp, gate: gate}
 			w.up.mu.Unlock()
 			wg2.Add(1)
+			to := addrs[j%len(addrs)]
 			go func() {
 				defer wg2.Done()
-				udpExchange(w.addr, q, 500*time.Millisecond, time.Millisecond)
+				udpExchange(to, q, 500*time.Millisecond, time.Millisecond)
 			}()
 		}
 		time.Sleep(90 * time.Millisecond) // all that can enter the resolver have entered (well within the timeout)
@@ -955,6 +966,9 @@ func replyStorm(r *rng, n int, base int) error {
 			parts = append(parts, fmt.Sprintf("%s=%d", kd, c))
 		}
 		sort.Strings(parts)
+		if len(addrs) > 1 {
+			parts = append(parts, "two_addresses=1")
+		}
 		emit("storm", itoa(sidx), itoa(k), strings.Join(parts, ","), "=>", itoa(maxDuring), itoa(barrier))
 	}
 	return nil
